@@ -87,7 +87,7 @@ class TextProps:
                 self.superscript = True
                 self.subscript = False
         else:
-            itextpos = int(textpos[:textpos.find('%')])
+            itextpos = float(textpos[:textpos.find('%')])
             if itextpos > 10:
                 self.superscript = False
                 self.subscript = True
